@@ -7,6 +7,7 @@
      Redecorate        make_cider_calc(<already decorated object>)             -> TypeError (inconsistent MRO)
      SetMlxc(f)        ks.set_mlxc(model)          new integrator object; the grid OBJECT is replaced only when the
                                                    grid CLASS has to change, the seven user grid attributes are carried over
+     MoveInPlace       mol.set_geom_(..); ks.grids.build()   the SAME molecule and grid objects with new content (no reset)
      SetGridAttr(a,v)  ks.grids.<a> = v            pyscf Grids.__setattr__ -> grids.reset(): same object, content dropped
      Build(withmol)    ks.build([mol])             integrator.build(mol): generators dropped, timer created
      InitGrids         ks.initialize_grids(..)     first half of get_veff: builds the grid IN PLACE when it has no content
@@ -41,8 +42,9 @@ VARIABLES ks,      \* the decorated object (and its shallow copies): see Init
           nid,     \* identity counter
           last,    \* observation of the last NrCall
           err,     \* outcome class of the last public call: "ok" | exception name
+          geom,    \* [Mols -> Nat]: content version of each molecule OBJECT (mol.set_geom_ changes it in place)
           steps
-vars == <<ks, grids, ni, nid, last, err, steps>>
+vars == <<ks, grids, ni, nid, last, err, geom, steps>>
 None == <<>>
 NoMol == "nomol"   \* the integrator's mol attribute before the first call / after build()
 HasNLDF(f) == f \in {"nldf", "nldfsdmx"}
@@ -55,13 +57,14 @@ Init == /\ ks = [decorated |-> FALSE, spin |-> "R", df |-> FALSE, fam |-> "nofam
         \* an undecorated RKS/UKS owns a plain pyscf Grids object with the user's attributes
         /\ grids = [oid |-> 1, cls |-> "Grids", level |-> CHOOSE l \in Levels : TRUE, scheme |-> CHOOSE s \in Schemes : TRUE,
                     mol |-> CHOOSE m \in Mols : TRUE, content |-> 0, indexer |-> 0]
-        /\ ni = None /\ nid = 1 /\ last = None /\ err = "ok" /\ steps = 0
+        /\ ni = None /\ nid = 1 /\ last = None /\ err = "ok" /\ steps = 0 /\ geom = [m \in Mols |-> 0]
 
 Tick == steps < MaxSteps /\ steps' = steps + 1
+TickF == Tick /\ UNCHANGED geom
 
 \* ---- the user configures the plain object before decorating (also spin treatment)
 Configure(sp, l, s) ==
-  /\ Tick /\ ~ks.decorated
+  /\ TickF /\ ~ks.decorated
   /\ ks' = [ks EXCEPT !.spin = sp]
   /\ grids' = [grids EXCEPT !.level = l, !.scheme = s]
   /\ err' = "ok" /\ UNCHANGED <<ni, nid, last>>
@@ -78,18 +81,18 @@ SetMlxcEffect(f) ==
      /\ nid' = nid + 2
 
 Decorate(f) ==
-  /\ Tick /\ ~ks.decorated
+  /\ TickF /\ ~ks.decorated
   /\ ks' = [ks EXCEPT !.decorated = TRUE, !.fam = f]
   /\ SetMlxcEffect(f) /\ err' = "ok" /\ UNCHANGED last
 Redecorate ==
-  /\ Tick /\ ks.decorated /\ err' = "TypeError" /\ UNCHANGED <<ks, grids, ni, nid, last>>
+  /\ TickF /\ ks.decorated /\ err' = "TypeError" /\ UNCHANGED <<ks, grids, ni, nid, last>>
 SetMlxc(f) ==
-  /\ Tick /\ ks.decorated
+  /\ TickF /\ ks.decorated
   /\ ks' = [ks EXCEPT !.fam = f]
   /\ SetMlxcEffect(f) /\ err' = "ok" /\ UNCHANGED last
 
 SetGridAttr(l, s) ==
-  /\ Tick /\ ks.decorated /\ (l # grids.level \/ s # grids.scheme)
+  /\ TickF /\ ks.decorated /\ (l # grids.level \/ s # grids.scheme)
   \* pyscf Grids.reset clears coords/weights; CiderGrids.reset also drops the indexer
   /\ grids' = [grids EXCEPT !.level = l, !.scheme = s, !.content = 0, !.indexer = 0]
   /\ err' = "ok" /\ UNCHANGED <<ks, ni, nid, last>>
@@ -97,12 +100,12 @@ SetGridAttr(l, s) ==
 \* ks.build() passes mol=None on to the integrator, scf.kernel() calls build(self.mol): the integrator's mol attribute
 \* differs, the generators are dropped either way
 Build(withmol) ==
-  /\ Tick /\ ks.decorated
+  /\ TickF /\ ks.decorated
   /\ ni' = [ni EXCEPT !.mol = IF withmol THEN ks.mol ELSE NoMol, !.gen = None, !.sdmx = None, !.timer = TRUE]
   /\ err' = "ok" /\ UNCHANGED <<ks, grids, nid, last>>
 
 InitGrids ==
-  /\ Tick /\ ks.decorated /\ grids.content = 0
+  /\ TickF /\ ks.decorated /\ grids.content = 0
   /\ grids' = [grids EXCEPT !.content = nid + 1,
                             !.indexer = IF grids.cls = "CiderGrids" THEN nid + 1 ELSE 0]
   /\ nid' = nid + 1 /\ err' = "ok" /\ UNCHANGED <<ks, ni, last>>
@@ -116,8 +119,8 @@ NeedSDMX(ns) == HasSDMX(ni.fam) /\ (ni.sdmx = None \/ ni.mol # ks.mol \/ ni.sdmx
 \* generators first, the other three start the timer first.  Modelled as the code does it.
 InitBeforeTimer(ns) == HasNLDF(ni.fam) /\ ns = 1
 NrCall(ns) ==
-  /\ Tick /\ ks.decorated /\ grids.content # 0
-  /\ LET g == IF NeedGen(ns) THEN [mol |-> ks.mol, gridsoid |-> grids.oid, nspin |-> ns,
+  /\ TickF /\ ks.decorated /\ grids.content # 0
+  /\ LET g == IF NeedGen(ns) THEN [mol |-> ks.mol, gridsoid |-> grids.oid, nspin |-> ns, molgeom |-> geom[ks.mol],
                                     indexer |-> grids.indexer, content |-> grids.content, serial |-> nid + 1]
               ELSE ni.gen
          x == IF NeedSDMX(ns) THEN [mol |-> ks.mol, nspin |-> ns, serial |-> nid + 1] ELSE ni.sdmx
@@ -128,27 +131,34 @@ NrCall(ns) ==
         THEN /\ err' = "AttributeError" /\ UNCHANGED <<ks, grids, last>>
              /\ IF InitBeforeTimer(ns) THEN ni' = initialised /\ nid' = bump ELSE UNCHANGED <<ni, nid>>
         ELSE /\ ni' = initialised /\ nid' = bump
-             /\ last' = [ns |-> ns, fam |-> ni.fam, mol |-> ks.mol, content |-> grids.content,
+             /\ last' = [ns |-> ns, fam |-> ni.fam, mol |-> ks.mol, content |-> grids.content, molgeom |-> geom[ks.mol],
                          gen |-> g, sdmx |-> x, newgen |-> NeedGen(ns), newsdmx |-> NeedSDMX(ns)]
              /\ err' = "ok" /\ UNCHANGED <<ks, grids>>
 
 Reset(m) ==
-  /\ Tick /\ ks.decorated
+  /\ TickF /\ ks.decorated
   /\ ks' = [ks EXCEPT !.mol = m]
   /\ ni' = [ni EXCEPT !.mol = m, !.gen = None, !.sdmx = None]
   /\ grids' = [grids EXCEPT !.mol = m, !.content = 0, !.indexer = 0]
   /\ err' = "ok" /\ UNCHANGED <<nid, last>>
 
+\* the user moves the atoms of the SAME molecule object and rebuilds the SAME grid object (no reset of the calculator)
+MoveInPlace ==
+  /\ Tick /\ ks.decorated /\ grids.content # 0
+  /\ geom' = [geom EXCEPT ![ks.mol] = nid + 1]
+  /\ grids' = [grids EXCEPT !.content = nid + 2, !.indexer = IF grids.cls = "CiderGrids" THEN nid + 2 ELSE 0]
+  /\ nid' = nid + 2 /\ err' = "ok" /\ UNCHANGED <<ks, ni, last>>
+
 \* shallow copies: the new KS object shares integrator and grid OBJECTS with the old one
-DensityFit == /\ Tick /\ ks.decorated /\ ~ks.df /\ ks' = [ks EXCEPT !.df = TRUE, !.copies = @ + 1]
+DensityFit == /\ TickF /\ ks.decorated /\ ~ks.df /\ ks' = [ks EXCEPT !.df = TRUE, !.copies = @ + 1]
               /\ err' = "ok" /\ UNCHANGED <<grids, ni, nid, last>>
-ToOtherSpin == /\ Tick /\ ks.decorated /\ ks' = [ks EXCEPT !.spin = IF @ = "R" THEN "U" ELSE "R", !.copies = @ + 1]
+ToOtherSpin == /\ TickF /\ ks.decorated /\ ks' = [ks EXCEPT !.spin = IF @ = "R" THEN "U" ELSE "R", !.copies = @ + 1]
                /\ err' = "ok" /\ UNCHANGED <<grids, ni, nid, last>>
 \* _CiderKS overrides Hessian, NMR, MP2, ... with a method raising NotImplementedError.  The density-fitted copy puts
 \* pyscf's _DFHF BEFORE _CiderKS in the MRO, and _DFHF defines Hessian / MP2 / CASSCF itself: on a density-fitted CIDER object
 \* those return pyscf's objects (for the semilocal stand-in functional).  Modelled as the code behaves (observation O7).
 BlockedMethods == {"Hessian", "NMR"}
-Unsupported(meth) == /\ Tick /\ ks.decorated
+Unsupported(meth) == /\ TickF /\ ks.decorated
                      /\ err' = IF meth = "Hessian" /\ ks.df THEN "ok" ELSE "NotImplementedError"
                      /\ UNCHANGED <<ks, grids, ni, nid, last>>
 
@@ -161,6 +171,7 @@ Next == \/ \E sp \in {"R", "U"}, l \in Levels, s \in Schemes : Configure(sp, l, 
         \/ \E l \in Levels, s \in Schemes : SetGridAttr(l, s)
         \/ (\E wm \in BOOLEAN : Build(wm)) \/ InitGrids \/ NrCall(NSpin(ks.spin))
         \/ \E m \in Mols : Reset(m)
+        \/ MoveInPlace
         \/ DensityFit \/ ToOtherSpin \/ \E meth \in BlockedMethods : Unsupported(meth)
 Spec == Init /\ [][Next]_vars
 
@@ -182,6 +193,7 @@ GeneratorCurrent ==
   (last # None /\ HasNLDF(last.fam)) =>
       /\ last.gen # None /\ last.gen.mol = last.mol /\ last.gen.nspin = last.ns
       /\ last.gen.content = last.content
+      /\ last.gen.molgeom = last.molgeom        \* (the NLDF generator holds atom-centred tables; the SDMX generator reads the live molecule)
 SDMXCurrent ==
   (last # None /\ HasSDMX(last.fam)) => (last.sdmx # None /\ last.sdmx.mol = last.mol /\ last.sdmx.nspin = last.ns)
 NoGeneratorAfterReset == [][(\E m \in Mols : Reset(m)) => (ni'.gen = None /\ ni'.sdmx = None /\ grids'.content = 0)]_vars
